@@ -51,7 +51,9 @@ def r1_prefix_strip(ctx):
     ctx.analysed(fi.qual)
     for parent, leafs in (("main", ["mean", "inner"]), ("op", ["out", "o2"]), ("a.b", ["a", "b"])):
         sinks = [_node(f"{parent}.{l}") for l in leafs]
-        env = {"self.name": parent, "self.outputs": {"o": leafs[0]}}
+        from .common import ctor_env
+        env = {**ctor_env(repo, f"{G}.expand.Splicer", {"name": parent, "inputs": {}, "input_map": None, "outputs": ["o"], "output_map": {"o": leafs[0]}}),
+               "self.name": parent, "self.outputs": {"o": leafs[0]}}
         paths = Interp(repo).explore(fi, env=env, args={"sinks": sinks})
         ctx.evals(len(paths))
         for p in paths:
@@ -83,6 +85,9 @@ def r2_rewire(ctx):
         new = {"a": Sym("NEW_a"), "b": Sym("NEW_b")} if not is_split else {"a": (Sym("K_a"), _out(Atom("PA"))), "b": (Sym("K_b"), _out(Atom("PB")))}
         nd = _node("n", {"a": Sym("OLD_a"), "b": Sym("OLD_b")})
         env = {"self.name": "pre", "self.outputs": {}, "self.nodes": set(), "self.cuts": [], "self.sinks": {}}
+        if "Splicer" in suffix:
+            from .common import ctor_env
+            env = {**ctor_env(repo, f"{G}.expand.Splicer", {"name": "pre", "inputs": {}, "input_map": None, "outputs": [], "output_map": None}), **env}
         ip = Interp(repo, inline={f"{NODE}.copy"}, max_iter=2)
         paths = ip.explore(fi, env=env, args={pname: nd, "inputs": new})
         ctx.evals(len(paths))
